@@ -78,6 +78,20 @@ class C28(core.Check):
                 cs.append(("rt", [Ci, Sq, L((kind, [0, 1]))], ("obj", 2, [v, ("null",)])))
                 cs.append(("rt", [Ci, Sq, L((kind, [1, 0]))], ("obj", 2, [v, ("null",)])))
             cs.append(("rt", [Ci, Bx, L((kind, [0, 1]))], ("obj", 2, [("obj", 1, [("int", 3)]), ("null",)])))      # ambiguous: C28-K3
+        # adversarial field names (leading / trailing / double underscore, unicode) at top level and in a nested object
+        U = ("raw", [("_", ("any",), None), ("_seq", ("any",), ("d", ("int", 0))), ("__d", ("any",), ("d", ("null",))), ("x_", ("any",), ("d", ("str", ""))), ("_é", ("any",), ("d", ("int", 1)))])
+        uobj = ("obj", 0, [("str", "u"), ("int", 7), ("list", [("int", 1)]), ("str", "t"), ("int", 2)])
+        for base in ("raw", "iceraw", "tyme", "icereg"):
+            Ub = (base, [(f, a, d if d is not None or base not in ("tyme",) else ("d", ("null",))) for f, a, d in U[1]])
+            cs.append(("rt", [Ub], uobj))
+            cs.append(("rt", [Ub, (base, [("_in", ("dom", 0), ("d", ("null",))), ("g", ("any",), ("d", ("null",)))])], ("obj", 1, [uobj, ("null",)])))
+        # inheritance, depth 2: the nested object sits in a field declared in the BASE class; a redeclared field
+        A0 = ("raw", [("inner", ("dom", 0), ("d", ("null",))), ("n", ("any",), ("d", ("int", 0)))])
+        A1 = (("sub", 1), [("m", ("any",), ("d", ("null",)))])
+        A2 = (("sub", 2), [("n", ("any",), ("d", ("int", 5))), ("_k", ("opt", [0]), ("d", ("null",)))])
+        cs.append(("rt", [P, A0, A1, A2], ("obj", 3, [p12, ("int", 9), ("str", "m"), ("obj", 0, [("int", 3), ("int", 4)])])))
+        cs.append(("rt", [P, A0, A1, A2], ("obj", 2, [p12, ("int", 9), ("list", [])])))
+        cs.append(("load", [P, A0, A1, A2], 3, ("dict", [("inner", ("dict", [("x", ("int", 1))])), ("_k", ("dict", []))])))
         # histories in one process: a failed serialisation must not change what comes after it; the same bytes load twice
         good = ("obj", 1, [p12, ("list", [("int", 1), ("dict", [("z", ("list", []))])])])
         for base in ("raw", "iceraw", "icetyme", "reg"):
@@ -333,7 +347,11 @@ class C28(core.Check):
                 f.append("bad:" + st[1])
                 continue
             t = st[1]
-            f.append(f"base:{schema[t[1]][0]}")
+            f.append(f"base:{D.base_of(schema, t[1])}")
+            if any(isinstance(b, (tuple, list)) for b, _ in schema):
+                f.append("schema:has-subclass")
+            if any(fn.startswith("_") for k in range(len(schema)) for fn, _, _ in D.fields_of(schema, k)):
+                f.append("schema:underscore-field")
             anns = {a[0] + ("-multi" if a[0] in ("opt", "union") and len(D.members(a)) > 1 else "") for _, flds in schema for _, a, _ in flds}
             f += [f"ann:{a}" for a in sorted(anns)]
 
@@ -352,7 +370,7 @@ class C28(core.Check):
                 ms = D.members(ann) if D.class_ann(ann) and ann[1] is not None else []
                 if len(ms) > 1 and t[1] in ms and ms.index(t[1]) > 0:
                     return True
-                return any(later_member(x, a) for x, (_, a, _) in zip(t[2], schema[t[1]][1]))
+                return any(later_member(x, a) for x, (_, a, _) in zip(t[2], D.fields_of(schema, t[1])))
             f.append(f"objdepth:{depth(t)}")
             if later_member(t):
                 f.append("union:value-of-later-member")
